@@ -126,8 +126,23 @@ func clauseHasTag(sp *FuncSpec, t string) bool {
 
 func (e *Engine) verifyAll(fns []*ssa.Function, dir string, perMs int, solvers []string, agree bool, workers int) []*FnResult {
 	results := make([]*FnResult, len(fns))
-	var wg sync.WaitGroup
 	sem := make(chan struct{}, workers)
+	// Phase 1: generate every VC once to fill the engine-level registries (heap arrays, function ids, mod sets), so that
+	// the text of each VC generated in phase 2 does not depend on the order in which the workers happen to run.
+	var wg0 sync.WaitGroup
+	nErr := len(e.specErrs)
+	for _, f := range fns {
+		wg0.Add(1)
+		go func(f *ssa.Function) {
+			defer wg0.Done()
+			sem <- struct{}{}
+			defer func() { <-sem }()
+			e.BuildVC(f)
+		}(f)
+	}
+	wg0.Wait()
+	e.specErrs = e.specErrs[:nErr]
+	var wg sync.WaitGroup
 	for i, f := range fns {
 		wg.Add(1)
 		go func(i int, f *ssa.Function) {
@@ -139,6 +154,29 @@ func (e *Engine) verifyAll(fns []*ssa.Function, dir string, perMs int, solvers [
 		}(i, f)
 	}
 	wg.Wait()
+	// Obligations left undecided (not refuted) are tried once more, one VC at a time and with three times the budget:
+	// a solver timeout under load must not be reported as a violation.
+	for i, r := range results {
+		retry := false
+		for _, o := range r.VC.obls {
+			if o.Unclaimed == "" && o.Result != "unsat" && o.Result != "sat" {
+				retry = true
+			}
+		}
+		if retry {
+			for _, o := range r.VC.obls {
+				if o.Result != "unsat" && o.Result != "sat" {
+					o.Result, o.Solver = "", ""
+				}
+			}
+			r2 := e.Solve(r.VC, dir, perMs*3, solvers, false)
+			r2.Secs += r.Secs
+			if r2.Smoke == "" {
+				r2.Smoke = r.Smoke
+			}
+			results[i] = r2
+		}
+	}
 	return results
 }
 
